@@ -142,6 +142,58 @@ class Lab:
                 self.txids.append(int(res.InvocationInfo.TransactionId))
             return fn
 
+        def p_periodic():
+            # one round of the retrievability-driven periodic report loop (PeriodicReportsHandler._periodic_reports_send_loop
+            # itself; only its waiting is taken away); what it sends is read back from the wire as a "read"
+            def fn():
+                import types
+
+                import sdc11073.provider.periodicreports as pr
+                h = pr.PeriodicReportsHandler(m, self.pair.provider.hosted_services)
+
+                class Once:
+                    def __init__(self):
+                        self.n = 0
+
+                    def __bool__(self):
+                        self.n += 1
+                        return self.n == 1
+                h._run_periodic_reports_thread = Once()   # noqa: SLF001
+                old_time, old_wait, old_rem = pr.time, pr.intervaltimer.IntervalTimer.wait_next_interval_begin, \
+                    pr.intervaltimer.IntervalTimer.remaining_time
+                saved = dict(m.retrievability_periodic)
+                m.retrievability_periodic.clear()
+                m.retrievability_periodic[100] = [conc('pc'), conc('m1')]
+                pr.time = types.SimpleNamespace(sleep=lambda s: None, time=old_time.time, monotonic=old_time.monotonic)
+                pr.intervaltimer.IntervalTimer.wait_next_interval_begin = lambda self_: None
+                pr.intervaltimer.IntervalTimer.remaining_time = lambda self_: 0
+                pos = len(self.pair.net.log)
+                try:
+                    import contextlib
+                    import io
+                    with contextlib.redirect_stdout(io.StringIO()):    # (the loop prints a debug line)
+                        h._periodic_reports_send_loop()   # noqa: SLF001
+                finally:
+                    pr.time = old_time
+                    pr.intervaltimer.IntervalTimer.wait_next_interval_begin = old_wait
+                    pr.intervaltimer.IntervalTimer.remaining_time = old_rem
+                    m.retrievability_periodic.clear()
+                    m.retrievability_periodic.update(saved)
+                mt = m.data_model.msg_types
+                reader = self.pair.consumer.msg_reader
+                for w in self.pair.net.log[pos:]:
+                    if w.src != 'provider':
+                        continue
+                    for name, cls in (('PeriodicContextReport', mt.PeriodicContextReport),
+                                      ('PeriodicMetricReport', mt.PeriodicMetricReport)):
+                        if name.encode() in w.data:
+                            md = reader.read_received_message(w.data)
+                            rep = cls.from_node(md.p_msg.msg_node)
+                            states = [st for part in rep.ReportPart for st in part.values_list]
+                            vg = types.SimpleNamespace(mdib_version=rep.MdibVersion)
+                            reads.append(self._read_record(name, None, vg, states=states))
+            return fn
+
         def r_ctx(handles):
             def fn():
                 hs = None if handles is None else [proj.map_c.get(h) or conc(h) for h in handles]
@@ -157,6 +209,7 @@ class Lab:
             'R_mdib': r_mdib(), 'R_descr': r_descr(), 'R_ctx_all': r_ctx(None), 'R_ctx_pc': r_ctx(['pc']),
             'O_unknown_a': o_unknown('a'), 'O_unknown_b': o_unknown('b'), 'O_unknown_c': o_unknown('c'),
             'O_setstring_a': o_setstring('va'), 'O_setstring_b': o_setstring('vb'),
+            'P_periodic': p_periodic(),
             'R_descr_dA': r_descr_of(['dA']), 'W_add_dA': w_add('dA', 'vmd'), 'W_del_dA': w_del('dA'),
         }
         return table[name]
